@@ -572,12 +572,38 @@ func (e *ConstEval) Run(fn *ssa.Function, args []CVal) *CEResult {
 			break
 		}
 	}
+	// A function whose last result is an error: the values handed back on a return whose error is known to be
+	// non-nil are not looked at by callers (`if err != nil { return ..., err }`), so they are left out of the meet of
+	// the value results; the error result itself is the meet over all returns. (Assumption: the values of a failed
+	// call are not used.)
+	nres := fn.Signature.Results().Len()
+	errLast := nres >= 2 && IsErrorType(fn.Signature.Results().At(nres-1).Type())
+	var failed []CVal // error values of the returns that were left out
+	anySuccess := false
+	if errLast {
+		for _, b := range fn.Blocks {
+			if !res.Reach[b] || len(b.Instrs) == 0 {
+				continue
+			}
+			if ret, ok := b.Instrs[len(b.Instrs)-1].(*ssa.Return); ok && len(ret.Results) == nres {
+				if ev := res.Of(ret.Results[nres-1]); ev.K != CType && ev.K != CBot && !knownNonNilAt(ret.Results[nres-1], b) {
+					anySuccess = true
+				}
+			}
+		}
+	}
 	for _, b := range fn.Blocks {
 		if !res.Reach[b] || len(b.Instrs) == 0 {
 			continue
 		}
 		if ret, ok := b.Instrs[len(b.Instrs)-1].(*ssa.Return); ok {
 			res.Rets = append(res.Rets, ret)
+			if errLast && anySuccess && len(ret.Results) == nres {
+				if ev := res.Of(ret.Results[nres-1]); ev.K == CType || knownNonNilAt(ret.Results[nres-1], b) {
+					failed = append(failed, Top)
+					continue
+				}
+			}
 			var rv CVal
 			switch len(ret.Results) {
 			case 0:
@@ -593,6 +619,13 @@ func (e *ConstEval) Run(fn *ssa.Function, args []CVal) *CEResult {
 			}
 			res.Ret = meet(res.Ret, rv)
 		}
+	}
+	if len(failed) > 0 && res.Ret.K == CTuple && len(res.Ret.Tup) == nres {
+		out := append([]CVal{}, res.Ret.Tup...)
+		for _, ev := range failed {
+			out[nres-1] = meet(out[nres-1], ev)
+		}
+		res.Ret = TupleV(out...)
 	}
 	e.Trace = append(e.Trace, res)
 	return res
@@ -1158,4 +1191,41 @@ func sameModule(a, b *ssa.Function) bool {
 		return strings.Join(parts, "/")
 	}
 	return pre(a.Pkg.Pkg.Path()) == pre(b.Pkg.Pkg.Path())
+}
+
+// knownNonNilAt: v is known to be non-nil in block b because b is only reached through the edge of a test
+// `v != nil` (or the other edge of `v == nil`).
+func knownNonNilAt(v ssa.Value, b *ssa.BasicBlock) bool {
+	for d := b; d != nil && d.Idom() != nil; d = d.Idom() {
+		id := d.Idom()
+		ifi := BlockIf(id)
+		if ifi == nil || len(id.Succs) != 2 {
+			continue
+		}
+		bo, ok := ifi.Cond.(*ssa.BinOp)
+		if !ok || (bo.Op != token.NEQ && bo.Op != token.EQL) {
+			continue
+		}
+		var other ssa.Value
+		switch {
+		case bo.X == v:
+			other = bo.Y
+		case bo.Y == v:
+			other = bo.X
+		default:
+			continue
+		}
+		if !IsNilConst(other) {
+			continue
+		}
+		edge := 0
+		if bo.Op == token.EQL {
+			edge = 1
+		}
+		s := id.Succs[edge]
+		if (s == d || s.Dominates(d)) && len(s.Preds) == 1 {
+			return true
+		}
+	}
+	return false
 }
